@@ -179,7 +179,7 @@ func c17Program(r *rand.Rand) (text string, fault c17Fault, wrappers []string, m
 		wrappers = append(wrappers, w.name)
 		inner = append(append(append([]string{}, w.pre...), inner...), w.post...)
 	}
-	mode = gen.Pick(r, []string{"direct", "direct", "deferred-direct-call", "deferred-nested-call", "deferred-map", "deferred-apply", "deferred-swap", "deferred-closure"})
+	mode = gen.Pick(r, []string{"direct", "direct", "deferred-direct-call", "deferred-nested-call", "deferred-map", "deferred-apply", "deferred-swap", "deferred-closure", "deferred-macro-expansion"})
 	if r.Intn(3) == 0 {
 		b.w("\n;; the faulty form follows\n")
 	}
@@ -199,7 +199,10 @@ func c17Program(r *rand.Rand) (text string, fault c17Fault, wrappers []string, m
 		// the fault sits in the body of a function defined here and called from a later top-level form
 		b.w("  ")
 		container.start = b.line
-		if mode == "deferred-closure" {
+		if mode == "deferred-macro-expansion" {
+			// the fault is evaluated while a macro defined here expands a call written in a later form
+			b.toks(append(append([]string{"(", "defmacro", "faulty", "(", "fn", "(", "x", ")", "(", "do"}, inner...), "(", "list", "(", "quote", "list", ")", "x", ")", ")", ")", ")"), fault.toks, fault.at)
+		} else if mode == "deferred-closure" {
 			b.toks(append(append([]string{"(", "def", "faulty", "(", "let", "(", "k", "1", ")", "(", "fn", "(", "x", ")"}, inner...), ")", ")", ")"), fault.toks, fault.at)
 		} else {
 			b.toks(append(append([]string{"(", "def", "faulty", "(", "fn", "(", "x", ")", "(", "trace!", ":in-body", ")"}, inner...), ")", ")"), fault.toks, fault.at)
@@ -212,7 +215,7 @@ func c17Program(r *rand.Rand) (text string, fault c17Fault, wrappers []string, m
 		}
 		var call []string
 		switch mode {
-		case "deferred-direct-call", "deferred-closure":
+		case "deferred-direct-call", "deferred-closure", "deferred-macro-expansion":
 			call = []string{"(", "faulty", "1", ")"}
 		case "deferred-nested-call":
 			call = []string{"(", "trace!", "(", "list", "0", "(", "faulty", "1", ")", ")", ")"}
@@ -242,10 +245,15 @@ func runC17(c *fw.Ctx) {
 	tr := &hx.Tracer{}
 	hx.InstallTrace(base, tr)
 	r := c.Rand("progs")
-	module := "prog17.lisp"
 	for i := 0; i < c.PerShard(c.Pick(600000, 15000000)); i++ {
 		text, fault, wrappers, mode, cont, fline, callSpan, callLine := c17Program(r)
 		c.Case(fmt.Sprintf("p-%d", i), text, func() {
+			module := fmt.Sprintf("prog17-%d.lisp", i%3)
+			if i%4 == 0 {
+				// the very same text was read before under another module name (not evaluated): positions belong to a reading
+				lisp.READ(text, types.NewCursorFile("scratch-name.lisp"), nil)
+				c.Count("texts_read_before_under_another_module", 1)
+			}
 			ast, err := lisp.READ(text, types.NewCursorFile(module), nil)
 			if err != nil {
 				c.Violate(fw.Violation{Key: "read-error", What: "generated program rejected by READ: " + err.Error()})
